@@ -229,11 +229,14 @@ def session(cfg, inject_at=None, kind=None):
 
     pipe_w = ml.watch_pipe(on_pipe) if hook else None
 
+    stamps = []
+
     def do_step():
         if not script:
             return
         st = script.pop(0)
         if st[0] == "keys":
+            stamps.append(time.monotonic())
             os.write(m, st[1])
         elif st[0] == "resize":
             scr0._sigwinch_handler(signal.SIGWINCH)
@@ -304,6 +307,7 @@ def session(cfg, inject_at=None, kind=None):
         "bad_modes": bad_modes,
         "cursor_visible": term.cursor_visible,
         "injected": injected[0] is not None,
+        "gap01": (stamps[1] - stamps[0]) if len(stamps) > 1 else 0.0,
     }
 
 
@@ -382,6 +386,13 @@ def judge_clean(ctx, cfg, r):
         V("returns", f"the clean session ended with {r['res']} {r.get('err', '')}; calls {r.get('calls')}", r["res"].split(":")[0])
         return False
     calls = r["calls"]
+    slow = script_name == "split-esc" and r.get("gap01", 0.0) > 0.06
+    if slow:
+        # the harness itself was too slow: more than half the escape time-out passed between the two halves of the sequence, a flush of the lone ESC is
+        # legitimate and the session says nothing about ordering or exactness
+        ctx.count("inconclusive-slow-harness")
+        judge_restore(ctx, cfg, r, case, V)
+        return True
     # ---- order: per input batch filter -> widget (each event in arrival order) -> unhandled iff the widget returned it
     i = 0
     n = len(calls)
